@@ -1019,18 +1019,22 @@ Ex(st, s, E) ==
                           IF ~o.ok THEN Fail(r.S, o.err).S
                           ELSE Emit(r.S, Written(o.v.s, Mode(E, r.S)))
       [] st.k = "autoescape" ->
-           LET r == Ev(st.e, s, E) IN
+           \* the whole statement is a scope of its own (like with): also the switch expression is evaluated inside it,
+           \* so a name the enclosing level assigns later is already that level's (still unassigned) local here
+           LET sF == NewFrame(s, PreMap(st, "pre"))
+               EF == [E EXCEPT !.sc = <<LastFrame(sF)>> \o E.sc, !.top = FALSE]
+               r == Ev(st.e, sF, EF) IN
            IF Bad(r) THEN r.S
            \* (the real block stores the value and takes its truth at each use; a strict undefined
            \* would fail at the first use instead of here)
            ELSE IF r.v.t = "undef" /\ UKof(r.v, UK) = "strict" THEN Fail(r.S, "EXCLUDED").S
            ELSE LET t == TruthR(r.v, r.S) IN
                 IF Bad(t) THEN t.S
-                ELSE \* the body is a scope of its own (like with).  A constant expression switches the lexical mode; any other makes the body
+                ELSE \* A constant expression switches the lexical mode; any other makes the body
                      \* volatile.  The dynamic mode is set for the body and restored however it ends.
                      LET old == DA(t.S, E.cx)
-                         E2 == IF st.e.k = "const" THEN [E EXCEPT !.auto = t.v.b] ELSE [E EXCEPT !.vol = TRUE]
-                         r2 == InScope(st.body, SetDA(t.S, E.cx, t.v.b), E2, PreMap(st, "pre")) IN
+                         E2 == IF st.e.k = "const" THEN [EF EXCEPT !.auto = t.v.b] ELSE [EF EXCEPT !.vol = TRUE]
+                         r2 == ExSeq(st.body, SetDA(t.S, E.cx, t.v.b), E2) IN
                      SetDA(r2, E.cx, old)
       [] st.k = "do" -> LET r == Ev(st.e, s, E) IN r.S       \* {% do expr %}: evaluated for its effects only
       [] st.k = "break" -> [s EXCEPT !.flow = "break"]
